@@ -598,6 +598,30 @@ func (ch c10) runCase(c *core.Ctx, envPlain, envAuth *hs.Env, k c10case, idx int
 			want = []string{"EZ"}
 			c.Count("copy_mode_oversize", 1)
 		}
+		if idx%5 == 1 && len(k.Cuts) == 0 {
+			// the messages after the oversized one arrive together with it (a pipelining client: one write,
+			// one segment): skipped is the declared size and not a byte more
+			var wants []string
+			for _, w := range want {
+				wants = append(wants, w+"Z"+"TDCZ")
+			}
+			in := append(append(append([]byte{}, msg...), pg.Sync()...), q("probe-after")...)
+			if _, ok := expect("oversized message with Sync and a query behind it in the same segment", in, wants...); !ok {
+				return
+			}
+			probed := false
+			for _, e := range cl.C.Events()[evStart:] {
+				if e.Kind == "cb" && e.Name == "parse" && e.Data.(hs.ParseRec).Query == "probe-after" {
+					probed = true
+				} else if e.Kind == "cb" && (e.Name == "parse" || e.Name == "exec" && !probed) {
+					viol("fabricated", "callback from an oversized message", e.Name)
+				}
+			}
+			c.Count("over_limit_skipped", 1)
+			c.Count("pipelined_behind_oversize", 1)
+			c.Eval(k.sig()+" pipelined", nt)
+			return
+		}
 		if _, ok := expect("oversized message", msg, want...); !ok {
 			return
 		}
